@@ -335,3 +335,32 @@ class Check:
             self.prop, self.tier, self.seed, n_dis, n_obl, self.corr['programs'], self.corr.get('n_disagreements', 0),
             self.evals, len(self.known_hit), time.time() - self.t0, 'VIOLATION' if rc else 'ok'))
         return rc
+
+
+def exc_name(e):
+    """canonical name of an exception raised by the implementation (closed enum, DESIGN §3.4)"""
+    from hl7apy.exceptions import HL7apyException
+    n = type(e).__name__
+    if isinstance(e, HL7apyException):
+        return n
+    if isinstance(e, ValueError):
+        return 'ValueError'
+    if isinstance(e, (IndexError, KeyError, TypeError, AttributeError)):
+        return 'Crash:' + n
+    return 'Crash:Other:' + n
+
+
+def level(strict):
+    from hl7apy.consts import VALIDATION_LEVEL as VL
+    return VL.STRICT if strict else VL.TOLERANT
+
+
+def pmap(func, items, nproc=None, chunk=64):
+    """run the implementation on many inputs in forked worker processes (order preserved)"""
+    import multiprocessing as mp
+    items = list(items)
+    if len(items) < 200:
+        return [func(x) for x in items]
+    ctx = mp.get_context('fork')
+    with ctx.Pool(nproc or NCPU) as pool:
+        return pool.map(func, items, chunksize=chunk)
